@@ -7,6 +7,7 @@ import os
 import z3
 
 from pyvc.vals import Val, NONE, S, B, I, K, LAT, TYP, sub, SeqV, Str, AVV, AVB, BASE, fresh, truthy, St, Unsupported, is_exc
+from specs.util import accumulator
 from pyvc.engine import Exec
 from pyvc import engine as _eng
 from pyvc.repo import Repo
@@ -279,7 +280,7 @@ class IterSpec(CasSpec):
     def loop(self, ex, st, n, itv):
         if not (isinstance(n, ast.For) and ex.is_kind(st, itv, 'dictvalues')):
             return None
-        store = st.rd(itv, 'of'); vals = fresh('stored_values', SeqV); res = st.lookup('result')
+        store = st.rd(itv, 'of'); vals = fresh('stored_values', SeqV); res = accumulator(ex, st, 'list', 'result')
         cat = st.lookup('category'); md = st.lookup('metadata')
         st.g['vals'] = vals
 
@@ -413,7 +414,7 @@ class FileCasSpec(IterSpec):
     def loop(self, ex, st, n, itv):
         if not (isinstance(n, ast.For) and 'listed' in st.g and ex.is_kind(st, itv, 'list')):
             return IterSpec.loop(self, ex, st, n, itv)
-        d, names = st.g['listed']; res = st.lookup('ids'); cat = st.lookup('category'); md = st.lookup('metadata')
+        d, names = st.g['listed']; res = accumulator(ex, st, 'list', 'ids'); cat = st.lookup('category'); md = st.lookup('metadata')
         dirv = Val.sv(d)
 
         def text_of(s, x):
